@@ -71,3 +71,11 @@ CORPUS += [
     M("n-truthiness-guard", L, "        if self._protocol is None or not self._protocol.alive:\n            return False",
       "        if not (self._protocol and self._protocol.alive):\n            return False", "S"),
 ]
+# round 5 (C08.e): a timeout of the read reaches the retry loop
+CORPUS += [
+    M("read-timeout-swallowed", L, "        return await asyncio.wait_for(self._queue.get(), timeout=timeout)",
+      "        try:\n            return await asyncio.wait_for(self._queue.get(), timeout=timeout)\n        except (TimeoutError, asyncio.TimeoutError):\n            return b\"\""),
+    M("read-without-timeout", L, "        return await asyncio.wait_for(self._queue.get(), timeout=timeout)", "        return await self._queue.get()"),
+    M("n-read-timeout-logged", L, "        return await asyncio.wait_for(self._queue.get(), timeout=timeout)",
+      "        try:\n            return await asyncio.wait_for(self._queue.get(), timeout=timeout)\n        except (TimeoutError, asyncio.TimeoutError):\n            _LOGGER.debug(\"Read timed out.\")\n            raise", "S"),
+]
